@@ -111,11 +111,12 @@ pub fn finish(ctx: &Ctx, acc: Acc, level: &str, mut coverage: Value, assumptions
 
 // ---- panic capture ----
 use std::cell::RefCell;
-thread_local! { static LAST_PANIC: RefCell<Option<(String, String)>> = RefCell::new(None); }
+thread_local! { static LAST_PANIC: RefCell<Option<(String, String)>> = RefCell::new(None); static IN_CATCH: std::cell::Cell<u32> = std::cell::Cell::new(0); }
 pub fn install_panic_hook() {
     std::panic::set_hook(Box::new(|info| {
         let loc = info.location().map(|l| format!("{}:{}", crate_relative(l.file()), l.line())).unwrap_or_else(|| "?".into());
         let msg = info.payload().downcast_ref::<String>().cloned().or_else(|| info.payload().downcast_ref::<&str>().map(|s| s.to_string())).unwrap_or_default();
+        if IN_CATCH.with(|c| c.get()) == 0 { eprintln!("MACHINERY: harness panic outside a guarded call at {loc}: {msg}"); }
         LAST_PANIC.with(|p| *p.borrow_mut() = Some((loc, msg)));
     }));
 }
@@ -140,7 +141,10 @@ fn crate_relative(f: &str) -> String {
 pub struct Panic { pub loc: String, pub msg: String }
 impl Panic { pub fn class(&self) -> String { let m: String = self.msg.chars().take(60).collect(); m.split(|c: char| c.is_ascii_digit()).next().unwrap_or("").trim().to_string() } }
 pub fn catch<T>(f: impl FnOnce() -> T) -> Result<T, Panic> {
-    match std::panic::catch_unwind(std::panic::AssertUnwindSafe(f)) {
+    IN_CATCH.with(|c| c.set(c.get() + 1));
+    let r = std::panic::catch_unwind(std::panic::AssertUnwindSafe(f));
+    IN_CATCH.with(|c| c.set(c.get() - 1));
+    match r {
         Ok(v) => Ok(v),
         Err(_) => { let (loc, msg) = LAST_PANIC.with(|p| p.borrow_mut().take()).unwrap_or(("?".into(), "?".into())); Err(Panic { loc, msg }) }
     }
